@@ -128,3 +128,49 @@ Proof.
   rewrite X1 in E1. rewrite X2 in E2. injection E1 as <-. injection E2 as <-.
   split; [rewrite a1, a2, EC; reflexivity|]. split; [rewrite b1, b2; reflexivity | rewrite e1, e2; exact EE].
 Qed.
+
+(* ---- the blanks after a list marker ---- *)
+(* the scan of the list rule: the columns of the blanks, tab stops counted from offset + bs, i.e. in
+   real columns when bs is the line's bsCount *)
+Lemma list_blanks_exact : forall ws fuel src pos mx offset bs,
+  Forall blank ws -> chars_at src pos ws -> stop_at src (pos + len ws) mx ->
+  (length ws < fuel)%nat -> 0 <= pos -> pos + len ws <= mx ->
+  list_blanks fuel src pos mx offset bs = Ok (pos + len ws, cols (offset + bs) ws - bs).
+Proof.
+  induction ws as [|c ws IH]; intros fuel src pos mx offset bs F C ST HF Hp Hm.
+  - destruct fuel as [|f]; [cbn in HF; lia|]. cbn [list_blanks cols]. unfold len in *. cbn [length] in *. rewrite Z.add_0_r in *.
+    destruct (pos <? mx) eqn:E; cbn [negb]; [|f_equal; f_equal; lia].
+    destruct ST as [Hge | (x & Hx & Hns)]; [lia|].
+    rewrite (py_idx_nth _ _ _ Hp Hx). cbn [bind].
+    assert (X9 : (x =? 9) = false) by (destruct (x =? 9) eqn:Q; [assert (x = 9) by lia; subst x; discriminate Hns | reflexivity]).
+    assert (X32 : (x =? 32) = false) by (destruct (x =? 32) eqn:Q; [assert (x = 32) by lia; subst x; discriminate Hns | reflexivity]).
+    rewrite X9, X32. f_equal. f_equal; lia.
+  - destruct fuel as [|f]; [cbn in HF; lia|]. cbn [list_blanks]. rewrite len_cons in *.
+    assert (E : (pos <? mx) = true) by (pose proof (len_nonneg ws); lia). rewrite E. cbn [negb].
+    inversion F as [|? ? Hc Hr]; subst. destruct (chars_at_cons _ _ _ _ Hp C) as [H0 C'].
+    rewrite (py_idx_nth _ _ _ Hp H0). cbn [bind].
+    assert (ST' : stop_at src (pos + 1 + len ws) mx) by (replace (pos + 1 + len ws) with (pos + (1 + len ws)) by lia; exact ST).
+    destruct Hc as [->| ->].
+    + change (32 =? 9) with false. change (32 =? 32) with true. cbv iota.
+      rewrite (IH f src (pos + 1) mx (offset + 1) bs Hr C' ST'); [|cbn in HF; lia|lia|lia].
+      cbn [cols]. change (32 =? 9) with false. cbv iota. f_equal. f_equal; [lia|]. f_equal. f_equal. lia.
+    + change (9 =? 9) with true. cbv iota.
+      rewrite (IH f src (pos + 1) mx _ bs Hr C' ST'); [|cbn in HF; lia|lia|lia].
+      cbn [cols]. change (9 =? 9) with true. cbv iota. f_equal. f_equal; [lia|]. f_equal. f_equal. lia.
+Qed.
+
+(* so the content column of a list item depends on the blanks after its marker only through the real
+   column they reach: equal columns, equal scan result (up to the character count) *)
+Theorem list_blanks_respelling src1 src2 p1 p2 mx1 mx2 offset bs ws1 ws2 :
+  Forall blank ws1 -> Forall blank ws2 -> chars_at src1 p1 ws1 -> chars_at src2 p2 ws2 ->
+  stop_at src1 (p1 + len ws1) mx1 -> stop_at src2 (p2 + len ws2) mx2 ->
+  0 <= p1 -> 0 <= p2 -> p1 + len ws1 <= mx1 -> p2 + len ws2 <= mx2 -> mx1 <= len src1 -> mx2 <= len src2 ->
+  cols (offset + bs) ws1 = cols (offset + bs) ws2 ->
+  exists o, list_blanks (S (length src1)) src1 p1 mx1 offset bs = Ok (p1 + len ws1, o)
+         /\ list_blanks (S (length src2)) src2 p2 mx2 offset bs = Ok (p2 + len ws2, o).
+Proof.
+  intros F1 F2 C1 C2 S1 S2 P1 P2 M1 M2 L1 L2 EC.
+  exists (cols (offset + bs) ws1 - bs). split.
+  - apply list_blanks_exact; try assumption. pose proof (len_nonneg ws1). unfold len in *. lia.
+  - rewrite EC. apply list_blanks_exact; try assumption. pose proof (len_nonneg ws2). unfold len in *. lia.
+Qed.
